@@ -9,6 +9,7 @@ import Mutagen.Proofs.Lifecycle7
 import Mutagen.Proofs.Lifecycle8
 import Mutagen.Proofs.Lifecycle9
 import Mutagen.Proofs.Lifecycle10
+import Mutagen.Proofs.Lifecycle11
 /-!
 # C29 — session lifecycle commands take effect exactly as documented
 
@@ -275,6 +276,39 @@ theorem flush_wait_sound {w : Bool} {tr : List Label} {s s' : State} {t : Nat}
   have ha := i.done th hth h2 h3
   obtain ⟨b1, b2, b3, b4⟩ := i.ans th hth ha
   exact ⟨th, hth, h1, ha, b1, b2, b3, b4⟩
+
+/-- **A waiting flush succeeds only after a complete full cycle that started
+after the call — on the trace.** In every run of the model, if a waiting `flush`
+call `t` returns successfully, then the trace of the run has the form
+`pre ++ [call t flush] ++ post`, and `post` — the part between the call event
+and the return — contains, for alpha and for beta alike, the start of a *full*
+scan of that endpoint followed later by the successful end of a scan of that
+endpoint. (These are the events of the cycle that served the request: the
+ghost fields `fullA/fullB/okA/okB` of `flush_wait_sound` are false when the call
+is issued, rise only at such events while the loop serves this call's request,
+an `ok` field only after its `full` field — `Proofs.Lifecycle.Rel`,
+`loopSteps_rel` — and the request is answered only at the end of that cycle,
+after the ancestor was saved.) -/
+theorem flush_wait_sound_trace {w : Bool} {tr : List Label} {s s' : State} {t : Nat}
+    (r : Run (init w) tr s) (st : Step s (.ret t (.flush true) .ok) s') :
+    ∃ pre post, tr = pre ++ Label.call t (.flush true) :: post ∧
+      (∃ l1 a l2 l3, post = l1 ++ Label.ep (.scanS .alpha true a) :: (l2 ++ Label.ep (.scanE .alpha true) :: l3)) ∧
+      (∃ l1 a l2 l3, post = l1 ++ Label.ep (.scanS .beta true a) :: (l2 ++ Label.ep (.scanE .beta true) :: l3)) := by
+  obtain ⟨⟨th, hth, h1, h2, h3⟩, _⟩ := ret_source st
+  have i := invF_run r
+  have ha := i.done th hth h2 h3
+  obtain ⟨_, _, b3, b4⟩ := i.ans th hth ha
+  obtain ⟨pre, post, e, _, _, hA, hB⟩ := hist_run r th hth
+  rw [h1, h2] at e
+  refine ⟨pre, post, e, ?_, ?_⟩
+  · obtain ⟨l1, x, l2, y, l3, e', hx, hy⟩ := hA b3
+    obtain ⟨a, rfl⟩ := isFullScanStart_elim hx
+    rw [isScanOk_elim hy] at e'
+    exact ⟨l1, a, l2, l3, e'⟩
+  · obtain ⟨l1, x, l2, y, l3, e', hx, hy⟩ := hB b4
+    obtain ⟨a, rfl⟩ := isFullScanStart_elim hx
+    rw [isScanOk_elim hy] at e'
+    exact ⟨l1, a, l2, l3, e'⟩
 
 /-- While the loop serves the request of a call that is still in flight: in the
 scanning phase the scans are forced (full), and the staging / transition phases
